@@ -133,6 +133,8 @@ def run(ctx: Ctx) -> None:
     lex_rule(ctx, ge)
     from .c15 import tokenize_clause
     tokenize_clause(ctx, ctx.rule("R04.tok", "every line is tokenised by the RISC-V grammar itself (nothing remembered across parsers or texts)"))
+    from ..parserfresh import fresh_rule
+    fresh_rule(ctx, "R04.fresh", ("RiscvParser",))
 
 
 def _hole_kind(e: ast.AST) -> str:
